@@ -52,6 +52,26 @@ def gen_c11(r, n):
         if r.random() < 0.5:
             sc += [('S', 2, 'r', 10 * MS, 'f'), ('F', 2, 'g')]
         cases.append((cfg, sc))
+    # the 16-bit wrap inside a short script (hook ClientSession::set_next_tx_id): requests with ids ..65534, 65535, 0, 1.. and
+    # late replies carrying the PREVIOUS id straddling the wrap (a reply to timed-out 65535 arriving when 0 is outstanding, ...)
+    for tx0 in (65533, 65534, 65535):
+        for pattern in ('in-order', 'late-previous', 'late-previous-then-genuine', 'dup-across'):
+            cfg = {'cap': 16, 'handles': 1, 'mt': 0, 'rmin': 20 * MS, 'rmax': 40 * MS, 'tx0': tx0}
+            sc = cl.connected_prefix()
+            for i in range(5):
+                sc.append(('S', i, 'r', 10 * MS, 'fcx'[i % 3]))
+            for i in range(5):
+                tx = (tx0 + i) % 65536
+                prev = (tx - 1) % 65536
+                if pattern == 'in-order':
+                    sc.append(('F', tx, 'geb'[i % 3]))
+                elif pattern == 'late-previous':
+                    sc += [('T', 10 * MS), ('F', tx, 'g')]            # arrives when the NEXT request is outstanding
+                elif pattern == 'late-previous-then-genuine':
+                    sc += [('F', prev, 'e'), ('F', tx, 'g')]
+                else:
+                    sc += [('F', tx, 'g'), ('F', tx, 'b'), ('F', prev, 'g')]
+            cases.append((cfg, sc))
     # RTU framing (no transaction id): the first frame delivered while a request is outstanding decides it; a late
     # reply to a timed-out request is taken as the reply to the next one
     for k in (1, 2, 3):
@@ -74,6 +94,8 @@ def gen_c11(r, n):
         cfg = cl.default_cfg(r, mt=r.choice([0, 0, 0, 2]), handles=1)
         if r.random() < 0.25:
             cfg['rtu'] = 1
+        if r.random() < 0.3:
+            cfg['tx0'] = r.choice([65530, 65533, 65534, 65535, 65535])
         pre = cl.connected_prefix(r.choice('fx'))
         w = {'S': 6, 'F': 8, 'P': 1.5, 'Q': 6, 'T': 3, 'E': 0.3, 'D': 0.2, 'H': 0, 'A': 0.05, 'X': 0.1, 'W': 0.3, 'V': 0.2,
              'Z': 0.2, 'R': 0.2, 'G': 0.2, 'L': 0.2}
@@ -167,6 +189,7 @@ def gen_bytes_cases(r, n):
     end of the stream - cut into random non-empty read chunks"""
     cases = []
     while len(cases) < n:
+        tx0 = r.choice([0, 0, 65535, 65534, 1, 40000])
         coils = r.random() < 0.4
         start = r.choice([0, 1, 16, 1000, 65530])
         count = r.choice([1, 1, 2, 3, 7, 8, 9, 16, 17]) if coils else r.choice([1, 1, 2, 3, 5])
@@ -176,7 +199,7 @@ def gen_bytes_cases(r, n):
         nbytes = (count + 7) // 8 if coils else 2 * count
         stream = []
         for _ in range(r.choice([0, 0, 1, 2, 3])):                      # frames with other transaction ids
-            tx = r.choice([1, 2, 7, 255, 256, 65535])
+            tx = (tx0 + r.choice([1, 2, 7, 255, 256, 65535, 65534])) % 65536
             kind = r.random()
             if kind < 0.4:
                 stream += mbap(tx, [fc, nbytes] + [r.randrange(256) for _ in range(nbytes)])
@@ -188,35 +211,35 @@ def gen_bytes_cases(r, n):
                              'too-short', 'too-long', 'empty-pdu', 'bad-proto', 'len-zero', 'len-big', 'truncated', 'none'])
         fin = 'P'
         if decisive == 'genuine':
-            stream += mbap(0, [fc, nbytes] + [r.randrange(256) for _ in range(nbytes)])
+            stream += mbap(tx0, [fc, nbytes] + [r.randrange(256) for _ in range(nbytes)])
         elif decisive == 'genuine-odd-bytecount':
-            stream += mbap(0, [fc, r.randrange(256)] + [r.randrange(256) for _ in range(nbytes)])
+            stream += mbap(tx0, [fc, r.randrange(256)] + [r.randrange(256) for _ in range(nbytes)])
         elif decisive == 'exception':
-            stream += mbap(0, [fc | 0x80, r.choice([1, 2, 3, 4, 5, 6, 8, 10, 11, 0, 7, 200])])
+            stream += mbap(tx0, [fc | 0x80, r.choice([1, 2, 3, 4, 5, 6, 8, 10, 11, 0, 7, 200])])
         elif decisive == 'exception-trailing':
-            stream += mbap(0, [fc | 0x80, 2, 0])
+            stream += mbap(tx0, [fc | 0x80, 2, 0])
         elif decisive == 'wrong-fc':
-            stream += mbap(0, [r.choice([2, 4, 5, 16, 0x84]), nbytes] + [0] * nbytes)
+            stream += mbap(tx0, [r.choice([2, 4, 5, 16, 0x84]), nbytes] + [0] * nbytes)
         elif decisive == 'too-short':
-            stream += mbap(0, [fc, nbytes] + [0] * (nbytes - 1))
+            stream += mbap(tx0, [fc, nbytes] + [0] * (nbytes - 1))
         elif decisive == 'too-long':
-            stream += mbap(0, [fc, nbytes] + [0] * (nbytes + 1))
+            stream += mbap(tx0, [fc, nbytes] + [0] * (nbytes + 1))
         elif decisive == 'empty-pdu':
-            stream += mbap(0, [])
+            stream += mbap(tx0, [])
         elif decisive == 'bad-proto':
-            stream += mbap(0, [fc, nbytes] + [0] * nbytes, proto=r.choice([1, 5, 256]))
+            stream += mbap(tx0, [fc, nbytes] + [0] * nbytes, proto=r.choice([1, 5, 256]))
         elif decisive == 'len-zero':
-            stream += mbap(0, [], length=0)
+            stream += mbap(tx0, [], length=0)
         elif decisive == 'len-big':
-            stream += mbap(0, [fc], length=r.choice([255, 300, 65535]))
+            stream += mbap(tx0, [fc], length=r.choice([255, 300, 65535]))
         elif decisive == 'truncated':
-            full = mbap(0, [fc, nbytes] + [0] * nbytes)
+            full = mbap(tx0, [fc, nbytes] + [0] * nbytes)
             stream += full[:r.randrange(1, len(full))]
             fin = r.choice('PZR')
         else:
             fin = r.choice('PZR')
         if decisive not in ('truncated', 'none') and r.random() < 0.3:     # whatever follows the decisive frame
-            stream += r.choice([mbap(0, [fc, nbytes] + [1] * nbytes), mbap(3, [1, 2, 3]), [0, 0, 0, 9], mbap(0, [fc | 0x80, 4])])
+            stream += r.choice([mbap(tx0, [fc, nbytes] + [1] * nbytes), mbap((tx0 + 3) % 65536, [1, 2, 3]), [0, 0, 0, 9], mbap(tx0, [fc | 0x80, 4])])
             if r.random() < 0.3:
                 fin = r.choice('PZR')
         if not stream and fin == 'P':
@@ -228,7 +251,7 @@ def gen_bytes_cases(r, n):
             k = {'one': len(stream), 'bytes': 1, 'headers': r.choice([6, 7, 1, 8])}.get(mode) or r.randrange(1, 12)
             chunks.append(stream[i:i + k])
             i += k
-        cases.append({'coils': coils, 'start': start, 'count': count, 'chunks': chunks, 'fin': fin, 'decisive': decisive})
+        cases.append({'coils': coils, 'start': start, 'count': count, 'chunks': chunks, 'fin': fin, 'decisive': decisive, 'tx0': tx0})
     return cases
 
 
@@ -237,14 +260,14 @@ def bytes_line(c):
     steps = ['E:f', 'CO', f'S:{c["start"]}:{kind}:1000000000:f'] + ['B:' + ''.join('%02X' % b for b in ch) for ch in c['chunks']]
     if c['fin'] != 'P':
         steps.append(c['fin'])
-    return 'cap=4 handles=1 mt=0 rmin=20000000 rmax=40000000 | ' + ' '.join(steps)
+    return f'cap=4 handles=1 mt=0 rmin=20000000 rmax=40000000{" tx0=" + str(c["tx0"]) if c.get("tx0") else ""} | ' + ' '.join(steps)
 
 
 def bytes_coq(c):
     req = ('RReadCoils' if c['coils'] else 'RReadHoldingRegisters') + f' ({c["start"]}, {c["count"]})'
     fin = {'P': 'FinPending', 'Z': 'FinEof', 'R': 'FinErr'}[c['fin']]
     chunks = '[' + '; '.join('[' + ';'.join(str(b) for b in ch) + ']' for ch in c['chunks']) + ']'
-    return f'{{| y_req := Base.ClientTypes.{req}; y_chunks := {chunks}; y_fin := Base.Frame.{fin} |}}'
+    return f'{{| y_req := Base.ClientTypes.{req}; y_tx0 := {c.get("tx0", 0)}; y_chunks := {chunks}; y_fin := Base.Frame.{fin} |}}'
 
 
 def late_partial_family(ctx, n):
@@ -255,15 +278,17 @@ def late_partial_family(ctx, n):
     r = ctx.rng
     lines, terms, wants, sess = [], [], [], []
     for _ in range(n):
-        fake = mbap(1, [3, 2, 0xBE, 0xEF])                                  # 11 bytes that look like a reply to tx 1
+        tx0 = r.choice([0, 0, 65535, 65535, 65534, 12345])
+        tx1 = (tx0 + 1) % 65536
+        fake = mbap(tx1, [3, 2, 0xBE, 0xEF])                                  # 11 bytes that look like a reply to tx 1
         pad = [r.randrange(256) for _ in range(r.choice([1, 3, 5]))]
         data0 = pad + fake                                                    # register data of reply 0 (even length)
         n0 = len(data0) // 2
-        reply0 = mbap(0, [3, len(data0)] + data0)
+        reply0 = mbap(tx0, [3, len(data0)] + data0)
         cut = len(reply0) - len(fake) - r.choice([0, 0, 1])                   # usually exactly in front of the fake header
         val = [r.randrange(256), r.randrange(256)]
         kind1 = r.choice(['genuine', 'genuine', 'exception', 'silent'])
-        reply1 = mbap(1, [3, 2] + val) if kind1 == 'genuine' else mbap(1, [0x83, 2]) if kind1 == 'exception' else []
+        reply1 = mbap(tx1, [3, 2] + val) if kind1 == 'genuine' else mbap(tx1, [0x83, 2]) if kind1 == 'exception' else []
         tmo = r.choice([2, 10, 1000]) * MS
         hexs = lambda b: ''.join('%02X' % x for x in b)
         steps = ['E:f', 'CO', f'S:100:h{n0}:{tmo}:f', f'T:{tmo // 2}', 'B:' + hexs(reply0[:cut]), f'T:{tmo}', 'B:' + hexs(reply0[cut:]),
@@ -273,12 +298,12 @@ def late_partial_family(ctx, n):
             k = r.randrange(1, 8)
             steps.append('B:' + hexs(reply1[i:i + k]))
             i += k
-        lines.append('cap=4 handles=1 mt=0 rmin=20000000 rmax=40000000 | ' + ' '.join(steps))
+        lines.append(f'cap=4 handles=1 mt=0 rmin=20000000 rmax=40000000{" tx0=" + str(tx0) if tx0 else ""} | ' + ' '.join(steps))
         stream = reply0 + reply1
-        terms.append(f'(Base.ClientTypes.RReadHoldingRegisters (200, 1), 1, [{";".join(str(b) for b in stream)}], Base.Frame.FinPending)')
+        terms.append(f'(Base.ClientTypes.RReadHoldingRegisters (200, 1), {tx1}, [{";".join(str(b) for b in stream)}], Base.Frame.FinPending)')
         nl = lambda b: '[' + ';'.join(str(x) for x in b) + ']'
         ch1 = [reply0[cut:]] + [bytes.fromhex(x[2:]) for x in steps[8:]]
-        sess.append(f'[(Base.ClientTypes.RReadHoldingRegisters (100, {n0}), [{nl(reply0[:cut])}]); (Base.ClientTypes.RReadHoldingRegisters (200, 1), [{"; ".join(nl(list(c)) for c in ch1 if len(c))}])]')
+        sess.append(f'({tx0}, [(Base.ClientTypes.RReadHoldingRegisters (100, {n0}), [{nl(reply0[:cut])}]); (Base.ClientTypes.RReadHoldingRegisters (200, 1), [{"; ".join(nl(list(c)) for c in ch1 if len(c))}])])')
     impl = ctx.harness('client', lines, shards=4)
     ctx.build_models(['Spec.SystemClientShow'])
     spec = ctx.coq_eval(['Spec.SystemClientShow', 'Base.ClientTypes', 'Base.Frame'], 'eval_spec', terms,
@@ -286,7 +311,7 @@ def late_partial_family(ctx, n):
     # the same two exchanges through the composed model `client_session` (one reader for the connection) and its Spec
     msess = [None] * len(lines)
     if cl.MODEL_OK and ctx.build_models(['Model.SystemClientEval']):
-        msess = ctx.coq_eval(['Model.SystemClientEval', 'Base.ClientTypes'], 'eval_session', sess, case_type='list (Base.ClientTypes.request * list (list N))')
+        msess = ctx.coq_eval(['Model.SystemClientEval', 'Base.ClientTypes'], 'eval_session', sess, case_type='N * list (Base.ClientTypes.request * list (list N))')
     bad = 0
     for line, i, want, ms in zip(lines, impl, spec, msess):
         p = cl.parse(cl.canon(i))
@@ -298,7 +323,7 @@ def late_partial_family(ctx, n):
             bad += 1
             if bad == 1:
                 ctx.violation('C11.late-remainder-of-a-timed-out-reply-disturbs-the-next-request',
-                              f'[{line}]: request 100 must time out and request 200 (tx 1) must see {want} (Spec: first frame with tx 1 in the whole stream), the connection must stay up; '
+                              f'[{line}]: request 100 must time out and request 200 (the next transaction id) must see {want} (Spec: first frame with that id in the whole stream), the connection must stay up; '
                               f'the client reports 100 -> {r0}, 200 -> {r1}, session ends {ended}; client_session|ref_session = {ms}; impl={i}',
                               {'late_partial': [line], 'impl': i, 'spec_for_second_request': want})
     ctx.oblige('correspondence:late-remainder-then-next-request-vs-spec-on-the-whole-stream', bad == 0, f'{bad} of {len(lines)}')
@@ -317,7 +342,7 @@ def bytes_family(ctx, n, cases=None):
         ctx.build_models(['Spec.SystemClientShow'])
         fins = {'P': 'FinPending', 'Z': 'FinEof', 'R': 'FinErr'}
         only = ctx.coq_eval(['Spec.SystemClientShow', 'Base.ClientTypes', 'Base.Frame'], 'eval_spec',
-                            [f'(Base.ClientTypes.{"RReadCoils" if c["coils"] else "RReadHoldingRegisters"} ({c["start"]}, {c["count"]}), 0, '
+                            [f'(Base.ClientTypes.{"RReadCoils" if c["coils"] else "RReadHoldingRegisters"} ({c["start"]}, {c["count"]}), {c.get("tx0", 0)}, '
                              f'[{";".join(str(b) for ch in c["chunks"] for b in ch)}], Base.Frame.{fins[c["fin"]]})' for c in cases],
                             case_type='Base.ClientTypes.request * N * list N * Base.Frame.fin', per_shard=200)
         both = [x + '|' + x for x in only]
